@@ -346,6 +346,7 @@ class Listing:
         self.align = {}  # (sec,pos) -> alignment
         self.optional_edges = set()  # edges the listing leaves open (may be present or absent)
         self.func_entries = {}  # function -> {(sec,pos)} entry block positions
+        self.func_entries_optional = {}  # ...positions that may or may not carry the entry role
         self.func_names = set()
 
 
@@ -439,17 +440,25 @@ def flatten(spec, secs, proxied):
             if not (r["blk"].get("e") and f):
                 continue
             j = i
+            across = False
             while j < len(regions) and not regions[j]["live"]:
                 if regions[j]["proxy"]:
                     j = None
                     break
                 nxt = regions[j + 1] if j + 1 < len(regions) else None
+                # a neighbour that is itself wholly deleted (without proxy) is no part of the edited listing any more:
+                # what counts is the first block behind it that still has bytes
+                if nxt is not None and not nxt["live"] and not nxt["proxy"]:
+                    if nxt["blk"]["k"] != "c" or nxt["blk"]["f"] != f:
+                        across = True  # ...reached across deleted data / foreign code: the statement neither demands nor forbids it
+                    j += 1
+                    continue
                 if nxt is None or nxt["blk"]["k"] != "c" or nxt["blk"]["f"] != f:
                     j = None
                     break
                 j += 1
             if j is not None and j < len(regions):
-                L.func_entries.setdefault(f, set()).add((sname, regions[j]["pos"]))
+                (L.func_entries_optional if across else L.func_entries).setdefault(f, set()).add((sname, regions[j]["pos"]))
     if nside:
         L.bytes[".vfside"] = SIDE_BYTES * nside
     for n in proxied:
